@@ -319,7 +319,7 @@ impl Prop for C08 {
     }
 
     fn n_indices(&self, tier: Tier) -> u64 {
-        20000 * tier.scale()
+        100000 * tier.scale()
     }
 
     fn run_index(&self, idx: u64, seed: u64, _tier: Tier, rt: &mut Rt) -> Vec<Violation> {
